@@ -1805,6 +1805,12 @@ def mark_quantity(symbol):
     return symbol
 
 
+def reset_marks():
+    """forget which symbols were declared quantities (call before an evaluation that re-uses names)."""
+    _QSYMS.clear()
+    PLAIN_QUANTITY.clear()
+
+
 def _as_load(t):
     t2 = ast.parse(ast.unparse(t), mode='eval').body
     return t2
